@@ -279,12 +279,92 @@ func CallsIn(fn *ssa.Function) []ssa.CallInstruction {
 // Returns lists the return instructions of fn.
 func Returns(fn *ssa.Function) []*ssa.Return {
 	var out []*ssa.Return
+	dead := deadRecoverBlock(fn)
 	AllInstrs(fn, func(i ssa.Instruction) {
-		if r, ok := i.(*ssa.Return); ok {
+		if r, ok := i.(*ssa.Return); ok && (dead == nil || r.Block() != dead) {
 			out = append(out, r)
 		}
 	})
 	return out
+}
+
+// deadRecoverBlock: the recover block go/ssa adds to every function with a defer is entered only when a deferred
+// call recovers from a panic. When no deferred call of fn can call recover() (library calls such as Pool.Put,
+// Mutex.Unlock, WaitGroup.Done; module functions and literals without a recover() of their own or in their static
+// callees), that block — and the return in it — never runs.
+func deadRecoverBlock(fn *ssa.Function) *ssa.BasicBlock {
+	if fn.Recover == nil {
+		return nil
+	}
+	can := false
+	AllInstrs(fn, func(i ssa.Instruction) {
+		d, ok := i.(*ssa.Defer)
+		if !ok {
+			return
+		}
+		var callee *ssa.Function
+		switch v := d.Call.Value.(type) {
+		case *ssa.Function:
+			callee = v
+		case *ssa.MakeClosure:
+			callee, _ = v.Fn.(*ssa.Function)
+		}
+		if d.Call.IsInvoke() || callee == nil {
+			can = true
+			return
+		}
+		if mayRecover(callee, map[*ssa.Function]bool{}, 0) {
+			can = true
+		}
+	})
+	if can {
+		return nil
+	}
+	return fn.Recover
+}
+
+func mayRecover(f *ssa.Function, seen map[*ssa.Function]bool, d int) bool {
+	if seen[f] {
+		return false
+	}
+	seen[f] = true
+	if !InModule(f) {
+		return false // standard library and gnark calls deferred in this code base do not recover on our behalf
+	}
+	if d > 4 || len(f.Blocks) == 0 {
+		return true
+	}
+	found := false
+	AllInstrs(f, func(i ssa.Instruction) {
+		ci, ok := i.(ssa.CallInstruction)
+		if !ok {
+			return
+		}
+		cc := ci.Common()
+		if b, isB := cc.Value.(*ssa.Builtin); isB {
+			if b.Name() == "recover" {
+				found = true
+			}
+			return
+		}
+		if cc.IsInvoke() {
+			found = true
+			return
+		}
+		switch v := cc.Value.(type) {
+		case *ssa.Function:
+			if mayRecover(v, seen, d+1) {
+				found = true
+			}
+		case *ssa.MakeClosure:
+			if g, _ := v.Fn.(*ssa.Function); g == nil || mayRecover(g, seen, d+1) {
+				found = true
+			}
+		default:
+			found = true
+		}
+	})
+	return found
 }
 
 // ---------------------------------------------------------------------------
@@ -1134,7 +1214,11 @@ func addrBase(v ssa.Value) ssa.Value {
 			v = x.X
 		case *ssa.IndexAddr:
 			v = x.X
+		case *ssa.Slice:
+			v = x.X
 		case *ssa.Alloc:
+			return x
+		case *ssa.MakeSlice:
 			return x
 		default:
 			return nil
